@@ -13,7 +13,7 @@ ALLOWED_AXIOMS = set(l.strip() for l in open(os.path.join(COQ, 'ALLOWED_AXIOMS')
 
 TRUSTED_BASE = [
     'Coq 8.16.1 kernel (coqc, full .vo build; vm_compute used for Examples/_refuted witnesses; no native_compute)',
-    'Coq standard library; no axioms declared in /verif/coq (scan for Axiom/Parameter/Admitted on every run)',
+    'Coq standard library and coq-record-update (record setters in Engine/ and Inv/); no axioms declared in /verif/coq (scan for Axiom/Parameter/Admitted on every run over the files of _CoqProject); Print Assumptions of every statement: closed under the global context',
     'Extraction with ExtrOcamlBasic only (bool/option/unit/list/prod/sumbool/sumor to OCaml types; Z, N, positive, nat stay Coq inductives; no Extract Constant), OCaml 4.13.1 compiler and runtime',
     'ocaml/driver.ml: parser of the integer-tree wire format and decimal<->Z conversion (no property logic)',
     'harness/obs.py: behaviour-free tracing subclasses of the real Ciw classes, snapshot printer, tick scaling with exactness guard',
